@@ -9,7 +9,7 @@ RULE = ("DIST-LAWS: per variant, seeded pairs (random, equal, one bit apart, onl
         "public API d(a,b), d(b,a) in both modes, d(a,a), the length-part distance, the distances after clear_checksum on both, "
         "the number of differing checksum bytes, max_distance and a==b; every relation of the property text is decided on the "
         "implementation, and the tuple is compared with the model.  DIST-WHOLE: compare_with_config vs reference (as C02).  "
-        "Non-trivial = pair at non-zero distance; distinct by case text.")
+        "Non-trivial = pair at non-zero distance; distinct by case text.  DIST-LAWS and DIST-WHOLE are repeated on the builds with the other header-distance code (no length table, 16x16 Q table, no Q table).")
 
 
 def run(ctx):
@@ -26,6 +26,16 @@ def run(ctx):
                                "what": "max_distance is not attained by the extremal pair of every variant"})
     ctx.correspond("DIST-WHOLE", suites.dist_whole_cases(ctx.rng.fork("whole"), ctx.tier), hb, db, flags=fl,
                    predicate=dc.pred_parts, nontrivial=lambda c, i: i != "0")
+    # the other header-distance implementations (no length table, 16x16 Q table, no Q table, pseudo-SIMD body kernels)
+    for name in ["nosimd", "embedded", "lowmem", "decq"]:
+        hb2 = ctx.harness(name)
+        if hb2 is None:
+            continue
+        fl2 = configs.flags(name)
+        ctx.correspond("DIST-LAWS[%s]" % name, dc.laws_cases(ctx.rng.fork("laws"), ctx.tier), hb2, db, flags=fl2,
+                       predicate=dc.pred_laws, nontrivial=lambda c, i: not i.startswith("0 0 "), coq_sample=0)
+        ctx.correspond("DIST-WHOLE[%s]" % name, suites.dist_whole_cases(ctx.rng.fork("whole"), ctx.tier), hb2, db, flags=fl2,
+                       predicate=dc.pred_parts, nontrivial=lambda c, i: i != "0", coq_sample=0)
     return finish(ctx)
 
 
